@@ -229,6 +229,8 @@ func uncoveredFrom(n int) int {
 	return c
 }
 
+var knownBitsReported int
+
 // oracleBits: packed-bit form r_i = s_i xor (b_i and Delta.Bit(0)).
 func oracleBits(o *hxlib.Out, idx int, replay string, bi int, b ibatch, r ibatchRes, delta ot.Label, base, transport string) {
 	o.Count("oracle_iknp_bits_batches")
@@ -271,23 +273,34 @@ func oracleBits(o *hxlib.Out, idx int, replay string, bi int, b ibatch, r ibatch
 	if unc < b.n {
 		o.Count("bits_batches_with_uncovered_tail")
 	}
+	if stray {
+		o.Fail("c06-bits-stray", map[string]any{"case": idx, "replay": replay, "batch": bi, "n": b.n,
+			"swords": clipS(wordsHex(r.swords), 200), "rwords": clipS(wordsHex(r.rwords), 200)})
+	}
+	if wrong > 0 && exact {
+		// the known ReceiveBits defect: report the first few, count the rest
+		// (the harness keeps only 20 failures; other failures must not be
+		// crowded out)
+		o.Count("bits_known_defect_batches")
+		knownBitsReported++
+		if knownBitsReported > 3 {
+			o.Counters["oracle_fail"]++
+			return
+		}
+	}
 	if wrong > 0 {
 		o.Fail("c06-bits-corr", map[string]any{"case": idx, "replay": replay, "batch": bi, "n": b.n,
 			"wrong": wrong, "first_wrong": first, "choices": b.ckind, "delta_bit0": d0,
 			"n_mod_64": b.n % 64, "uncovered_from": unc,
 			"only_rows_receivebits_leaves_unxored": fmt.Sprint(exact),
-			"base": base, "transport": transport,
+			"base":                                 base, "transport": transport,
 			"swords": clipS(wordsHex(r.swords), 200), "rwords": clipS(wordsHex(r.rwords), 200),
 			"cwords": clipS(wordsHex(b.words), 200)})
-	}
-	if stray {
-		o.Fail("c06-bits-stray", map[string]any{"case": idx, "replay": replay, "batch": bi, "n": b.n,
-			"swords": clipS(wordsHex(r.swords), 200), "rwords": clipS(wordsHex(r.rwords), 200)})
 	}
 }
 
 // genBatches: 1..4 calls on one instance, mixing the three forms.
-func genBatches(r *hxlib.Rng, first int, maxN int, kinds string) []ibatch {
+func genBatches(r *hxlib.Rng, first int, maxN int, kinds string, firstKind byte) []ibatch {
 	nb := 1 + r.Intn(3)
 	if r.Intn(6) == 0 {
 		nb = 4
@@ -303,6 +316,9 @@ func genBatches(r *hxlib.Rng, first int, maxN int, kinds string) []ibatch {
 			n = genN(r, 600)
 		}
 		k := kinds[r.Intn(len(kinds))]
+		if i == 0 && firstKind != 0 {
+			k = firstKind
+		}
 		c, ck := genChoices(r, n)
 		b := ibatch{kind: byte(k), n: n, b: c, ckind: ck}
 		if k == 'B' {
@@ -329,12 +345,15 @@ func iknpMode(args []string) int {
 		}
 		first := 0
 		kinds := kindsets[r.Intn(len(kindsets))]
+		var firstKind byte
 		if i < 2*len(sweepSizes) {
-			// deterministic sweep over the boundary sizes, both forms
+			// deterministic sweep over the boundary sizes, both forms; the
+			// later calls on the same pair mix all three forms
 			first = sweepSizes[i/2]
-			kinds = []string{"L", "B"}[i%2]
+			firstKind = "LB"[i%2]
+			kinds = "LMB"
 		}
-		batches := genBatches(r, first, 4*512, kinds)
+		batches := genBatches(r, first, 4*512, kinds, firstKind)
 		if i < 2*len(sweepSizes) && i%2 == 1 && i%4 == 1 {
 			// all-ones choices on the sweep's packed-bit case: the worst case
 			// for the word-wise XOR
